@@ -210,6 +210,7 @@ func snapScripts() []PSeq {
 			{Conn: -1, Adv: 200, Cmd: h("@snapshot")}, {Conn: -1, Adv: 10, Cmd: h("set", "c", "1")}}},
 		{ID: "s6", Mode: "snap", Sync: "no", Ops: []POp{{Conn: -1, Cmd: h("set", "k1", "a")}, {Conn: -1, Cmd: h("@snapshot")}, {Conn: -1, Adv: 10, Cmd: h("set", "k1", "b")}, {Conn: -1, Adv: 10, Cmd: h("@snapshot-blocked")}, {Conn: -1, Adv: 10, Cmd: h("set", "k2", "c")}, {Conn: -1, Adv: 10, Cmd: h("@snapshot")}}},
 		{ID: "s7", Mode: "snap", Sync: "no", Ops: []POp{{Conn: -1, Cmd: h("set", "k1", "a")}, {Conn: -1, Cmd: h("@snapshot-blocked")}, {Conn: -1, Adv: 10, Cmd: h("@snapshot")}}},
+		{ID: "s8", Mode: "snap", Sync: "no", Ops: []POp{{Conn: -1, Cmd: h("set", "k1", "a")}, {Conn: -1, Cmd: h("hset", "h1", "f", "inf")}, {Conn: -1, Cmd: h("@snapshot")}, {Conn: -1, Adv: 10, Cmd: h("set", "k2", "b")}}},
 		{ID: "s4", Mode: "snap", Sync: "no", Ops: []POp{{Conn: 0, Cmd: h("select", "1")}, {Conn: 0, Cmd: h("set", "k1", "db1")}, {Conn: -1, Cmd: h("set", "k1", "db0")}, {Conn: -1, Cmd: h("@snapshot")}}},
 	}
 }
